@@ -17,6 +17,16 @@ THEOREMS = [
     "Nix.C09.compound",
     "Nix.C09.sanitizer_idempotent",
     "Nix.C09.sanitizer_clean",
+    "Nix.C09.split_all_powers",
+    "Nix.C09.power_value",
+    "Nix.C09.scaling_ratio_all_powers",
+    "Nix.C09.scaling_compose_all_powers",
+    "Nix.C09.scaling_invert_all_powers",
+    "Nix.C09.not_scalable_all_powers",
+    "Nix.C09.compound_all_powers",
+    "Nix.C09.scalable_equivalence",
+    "Nix.C09.scaling_identity",
+    "Nix.C09.scaling_refused_iff_not_scalable",
 ]
 ASSUMPTIONS = [
     "Python's `re` engine is replaced by a hand-written backtracking matcher for the regex shapes units.py "
